@@ -11,15 +11,18 @@ CONSTANTS Menu,        \* name of the menu / prefix family (one per property)
           MaxTail,     \* bound on the tail length
           Layouts,     \* layouts to generate for
           AllPlants,   \* C07: TRUE = every subset of the plantable files, FALSE = five representative subsets
+          Lite,        \* BOOLEAN: quick tier - fewer pre-states / behaviour configurations / run shapes
           Flavours     \* set of [newer, stateful, variant]: generator flavour (custom New / stateful output) and fixture variant
 
 G3 == <<"a", "b", "c">>
 PQR == <<"p", "q", "r">>
 NoFault == [kind |-> "none", pkg |-> "", gen |-> "", at |-> ""]
 Run(all, force, entry, gens, fault) ==
-    [op |-> "run", all |-> all, force |-> force, entry |-> entry, gens |-> gens, fault |-> fault, pkg |-> "", file |-> "", gen |-> "", kind |-> ""]
+    [op |-> "run", all |-> all, force |-> force, entry |-> entry, gens |-> gens, fault |-> fault, from |-> "", pkg |-> "", file |-> "", gen |-> "", kind |-> ""]
 EnvOp(op, pkg, file, gen, kind) ==
-    [op |-> op, all |-> FALSE, force |-> FALSE, entry |-> <<>>, gens |-> <<>>, fault |-> NoFault, pkg |-> pkg, file |-> file, gen |-> gen, kind |-> kind]
+    [op |-> op, all |-> FALSE, force |-> FALSE, entry |-> <<>>, gens |-> <<>>, fault |-> NoFault, from |-> "", pkg |-> pkg, file |-> file, gen |-> gen, kind |-> kind]
+(* the same run started in the directory of package d instead of the module root *)
+From(d, r) == [r EXCEPT !.from = d]
 
 RunAll == Run(TRUE, FALSE, PQR, G3, NoFault)
 Edit(p) == EnvOp("edit", p, "", "", "")
@@ -30,8 +33,11 @@ DelSum == EnvOp("delsum", "", "", "", "")
 Corrupt(k) == EnvOp("corruptsum", "", "", "", k)
 Fault(k, p, g, at) == [kind |-> k, pkg |-> p, gen |-> g, at |-> at]
 
-AllFaults == {Fault(k, p, g, at) : k \in {"err", "badsyntax", "die"}, p \in FixPkgs, g \in {"a", "b"}, at \in {"T1", "T2", "defer"}}
-             \ {Fault("badsyntax", p, g, "defer") : p \in FixPkgs, g \in {"a", "b"}}
+(* every single fault: generator error, unparseable rendering, process death by exit and by an unrecovered panic, at each
+   GenerateType call and in the deferred callback; plus an error returned by a callback registered from inside a deferred callback *)
+AllFaults == ({Fault(k, p, g, at) : k \in {"err", "badsyntax", "die", "panic"}, p \in FixPkgs, g \in {"a", "b"}, at \in {"T1", "T2", "defer"}}
+              \ {Fault("badsyntax", p, g, "defer") : p \in FixPkgs, g \in {"a", "b"}})
+             \cup {Fault("err", p, g, "nested") : p \in FixPkgs, g \in {"a", "b"}}
 
 Perms3 == { <<"p", "q", "r">>, <<"p", "r", "q">>, <<"q", "p", "r">>, <<"q", "r", "p">>, <<"r", "p", "q">>, <<"r", "q", "p">> }
 (* C05: every non-empty selection of packages in every order *)
@@ -45,13 +51,15 @@ BehSets ==
                            << <<"p", "a", "nothing">>, <<"p", "b", "ignore">>, <<"q", "a", "skip">>, <<"q", "b", "ignore_render">>, <<"r", "a", "mixed">> >>,
                            << <<"p", "a", "ignore">>, <<"p", "b", "skip">>, <<"p", "c", "nothing">>, <<"q", "a", "ignore_render">>, <<"r", "b", "ignore">> >>,
                            << <<"p", "a", "mixed">>, <<"p", "b", "nothing">>, <<"q", "b", "ignore">>, <<"q", "c", "skip">>, <<"r", "a", "nothing">>, <<"r", "b", "nothing">>, <<"r", "c", "nothing">> >> }
-      [] Menu = "C02" -> { <<>>, << <<"p", "b", "ignore">>, <<"q", "a", "nothing">> >> }
+      [] Menu = "C02" -> IF Lite THEN { << <<"p", "b", "ignore">>, <<"q", "a", "nothing">> >> }
+                         ELSE { <<>>, << <<"p", "b", "ignore">>, <<"q", "a", "nothing">> >> }
       [] OTHER -> { <<>>, << <<"q", "b", "ignore">>, <<"r", "c", "nothing">> >> }
 
 Prefixes ==
     CASE Menu = "C08" -> { <<>>, <<RunAll, RunAll>> }
-      [] Menu = "C02" -> { <<>>, <<RunAll>>, <<RunAll, RunAll>>, <<RunAll, RunAll, AddUser("p", "zz_generated.old.go"), AddUser("q", "zz_generated.old.go")>>,
-                           <<RunAll, RunAll, DelSum>> }
+      [] Menu = "C02" -> IF Lite THEN { <<>>, <<RunAll, RunAll>>, <<RunAll, RunAll, AddUser("p", "zz_generated.old.go"), AddUser("q", "zz_generated.old.go")>> }
+                         ELSE { <<>>, <<RunAll>>, <<RunAll, RunAll>>, <<RunAll, RunAll, AddUser("p", "zz_generated.old.go"), AddUser("q", "zz_generated.old.go")>>,
+                                <<RunAll, RunAll, DelSum>> }
       [] Menu = "C07" -> { <<>>, <<RunAll>> }                                  \* (plants are chosen as tail steps)
       [] Menu = "C04" -> { <<>>, [i \in 1..8 |-> Run(TRUE, TRUE, PQR, G3, NoFault)], [i \in 1..8 |-> RunAll] }   \* the same run in 8 fresh processes
       [] OTHER -> { <<>> }
@@ -59,13 +67,14 @@ Prefixes ==
 TailMenu ==
     CASE Menu = "C08" -> { RunAll, Run(TRUE, TRUE, PQR, G3, NoFault), Run(TRUE, FALSE, <<"r">>, G3, NoFault), Run(FALSE, FALSE, <<"q">>, G3, NoFault),
                            Run(TRUE, FALSE, PQR, G3, Fault("err", "q", "a", "T1")), Run(TRUE, FALSE, <<"q", "p">>, G3, NoFault),
+                           From("q", RunAll), From("r", Run(TRUE, FALSE, <<"r">>, G3, NoFault)),
                            Edit("p"), Edit("q"), AddUser("q", "user.go"), DelUser("q", "user.go"), DelOut("p", "a"), AddUser("p", "notes.txt"),
                            DelSum, Corrupt("drop"), Corrupt("wrong"), Corrupt("garbage"), Corrupt("truncate") }
       [] Menu = "C02" -> { Run(TRUE, FALSE, PQR, G3, f) : f \in AllFaults } \cup
                          { Run(FALSE, FALSE, <<"r", "q">>, <<"b", "a">>, f) : f \in AllFaults } \cup
-                         { Run(TRUE, TRUE, <<"r">>, G3, f) : f \in {x \in AllFaults : x.pkg # "q"} }
+                         (IF Lite THEN {} ELSE { Run(TRUE, TRUE, <<"r">>, G3, f) : f \in {x \in AllFaults : x.pkg # "q"} })
       [] Menu = "C07" -> { RunAll, Run(FALSE, FALSE, <<"q">>, G3, NoFault), Run(TRUE, FALSE, <<"r">>, G3, NoFault), Run(TRUE, TRUE, PQR, <<"a">>, NoFault),
-                           Run(FALSE, FALSE, <<"p", "r">>, <<"c", "a">>, NoFault) }
+                           Run(FALSE, FALSE, <<"p", "r">>, <<"c", "a">>, NoFault), From("q", RunAll), From("r", Run(TRUE, FALSE, <<"r", "q">>, G3, NoFault)) }
       [] Menu = "C04" -> { Run(TRUE, TRUE, e, G3, NoFault) : e \in Perms3 } \cup { Run(FALSE, FALSE, e, G3, NoFault) : e \in Perms3 } \cup
                          { Run(FALSE, FALSE, <<"r", "p">>, G3, NoFault), Run(TRUE, TRUE, <<"r", "q">>, G3, NoFault), RunAll }
       [] Menu = "C05" -> { Run(all, all, e, G3, NoFault) : all \in BOOLEAN, e \in Selections }
@@ -73,9 +82,11 @@ TailMenu ==
 
 (* C07: files planted by the environment, in a canonical order (the order is irrelevant to a directory) *)
 PlantSeq == << <<"p", "user.go">>, <<"p", "zz_generatedx.go">>, <<"p", "zz_generated">>, <<"p", "zz_generated.old.go">>, <<"p", "notes.txt">>,
-               <<"q", "zz_generated.old.go">>, <<"q", "zz_generatedx.go">> >>
+               <<"q", "zz_generated.old.go">>, <<"q", "zz_generatedx.go">>,
+               (* outputs left behind by an earlier version of generators that still run (kept by ErrIgnore, else rewritten or removed) *)
+               <<"p", "zz_generated.a.go">>, <<"p", "zz_generated.b.go">>, <<"q", "zz_generated.b.go">>, <<"r", "zz_generated.b.go">> >>
 PlantSets == IF AllPlants THEN SUBSET (1..Len(PlantSeq))
-             ELSE { {}, 1..Len(PlantSeq), {4, 6}, {2, 3, 7}, {1, 5} }
+             ELSE { {}, 1..Len(PlantSeq), {4, 6}, {2, 3, 7}, {1, 5}, {8, 9, 10, 11}, {4, 9, 10} }
 PlantOps(S) == LET idx == SelectSeq([i \in 1..Len(PlantSeq) |-> i], LAMBDA i : i \in S)
                IN [k \in 1..Len(idx) |-> AddUser(PlantSeq[idx[k]][1], PlantSeq[idx[k]][2])]
 
